@@ -152,6 +152,8 @@ type Machine struct {
 	sinks          map[string][]*udpState
 	sinkCount      int
 	hashInjective  bool
+	divSplit       int
+	divMemo        map[*Term]divRes
 	opaqueHash     map[string]*Term
 	schedOnly      []string
 	promVecs       map[*Value]*promVec
@@ -177,6 +179,7 @@ type RunConfig struct {
 	MaxSteps     int
 	LoopBound    int
 	SolverMs     int
+	OneShotMs    int // cap of the fresh-process retry of an obligation the incremental solver left unknown (0 = off)
 	BranchMs     int
 	Trace        bool
 	CheckWitness bool
@@ -263,10 +266,13 @@ func (m *Machine) assume(t *Term) {
 }
 
 func (m *Machine) check(extra ...*Term) SatResult {
-	m.solver.SetTimeout(m.cfg.SolverMs)
+	m.solver.SetTimeout(m.incrementalCap())
 	r := m.solver.Check(m.ts, extra...)
 	if r == Sat {
 		m.solver.Done()
+	}
+	if r == Unknown && m.cfg.OneShotMs > 0 {
+		r, _ = m.solver.OneShot(m.ts, m.cfg.OneShotMs, nil, extra...)
 	}
 	return r
 }
@@ -436,6 +442,15 @@ func (m *Machine) asInt(v Value) int64 {
 	return signExt(m.concretize(t), t.W)
 }
 
+// incrementalCap: with the one-shot retry available the incremental attempt at an obligation
+// is cut short (a third of the cap), the retry gets the full cap.
+func (m *Machine) incrementalCap() int {
+	if m.cfg.OneShotMs > 0 && m.cfg.SolverMs > 15000 {
+		return m.cfg.SolverMs / 3
+	}
+	return m.cfg.SolverMs
+}
+
 // freshVar declares a named input.
 func (m *Machine) freshVar(name string, w int) *Term {
 	k := m.varCount[name]
@@ -457,14 +472,19 @@ func (m *Machine) reportViolation(kind, label string, neg *Term, detail string) 
 	}
 	mk := func(class string, extra ...*Term) bool {
 		r := m.solver.Check(m.ts, extra...)
+		var model map[string]uint64
+		if r == Sat {
+			model = m.modelNow()
+			m.solver.Done()
+		} else if r == Unknown && m.cfg.OneShotMs > 0 {
+			r, model = m.solver.OneShot(m.ts, m.cfg.OneShotMs, m.ts.vars, extra...)
+		}
 		if r != Sat {
 			if r == Unknown {
 				m.res.Inconclusive = append(m.res.Inconclusive, "violation query unknown for "+label)
 			}
 			return false
 		}
-		model := m.modelNow()
-		m.solver.Done()
 		ch := map[string]int64{}
 		for k, v := range m.choices {
 			ch[k] = v
